@@ -90,4 +90,23 @@ PROPS = {
     "C15": det("corr.C15", "DET15", "props/C15.v", "dynamic threshold with all four unset/set combinations of temp-thresh-min/max, scene mean below/inside/above the range, slow warming, preview 0-3 frames; "
                "background (all pixels), weights (checksum of float32 bit patterns), threshold and backgroundFrames compared after every frame; spec S15"),
     "C17": proc("corr.C17", "PROC", "props/C17.v", "fault-free continuous and test sinks, motion-sink refusals; compared projection: continuous and test sinks; spec S17c && S17t"),
+    "C18": {"stages": [{"harness": "WRITER", "corr": "corr.C18", "n": {"quick": 36, "thorough": 400}, "shard": 3}],
+            "theorems": "props/C19.v",
+            "rule": "connections to the real thermal-writer handleConn/writer (driver binary): frame sizes 1-32 bytes (Coq-evaluated byte-for-byte) with 0-520 frames (more than 2 x 256 in flight), "
+                    "GOMAXPROCS in {1,2,4,16}, random read segmentations (1 byte .. several frames), truncated last frame; non-trivial = at least 2 frames; distinct by (size, count, content seed)",
+            "trusted_base": TB_COMMON + ["Go channels are FIFO and close() delivers buffered items first; bufio/os file writes; file names have one-second resolution (single connection per run)"]},
+    "C14": {"stages": [{"harness": "HEADER", "corr": "corr.C14h", "n": {"quick": 300, "thorough": 5000}, "shard": 40}],
+            "theorems": "props/C19.v", "rule": "x", "trusted_base": TB_COMMON},
+    "C10": {"stages": [{"harness": "FILEREC", "corr": "corr.C10", "n": {"quick": 1, "thorough": 1}, "shard": 40}],
+            "theorems": "props/C10.v",
+            "level_text": "Coq theorems on a file life-cycle model (every prefix of every well-formed call sequence; recovery) - partial: the kernel's file-system behaviour is outside the theorem "
+                          "and is tied to the model by fault enumeration on the real recorder: SIGKILL injected by strace at every system call of scripted scenarios, the real start-up clean-up run afterwards, "
+                          "every *.cptv fully decoded; plus namespace-operation traces compared with the model's step expansion and a concurrent observer.",
+            "rule": "3 scenarios (5 in the thorough tier, with 400-frame recordings that flush the scratch file) on the real CPTVFileRecorder (motion recorder: two finished + one open recording; "
+                    "constant recorder; Stop() on connection loss): one case per (system call name, k): the driver is killed on entering that call, the tree is listed and every .cptv decoded, the real "
+                    "deleteTempFiles runs in a fresh process, listed and decoded again; one case per observation of a concurrent observer; one namespace-trace case per scenario; "
+                    "non-trivial = killed with temporaries present; distinct by (scenario, system call, k)",
+            "trusted_base": TB_COMMON + ["strace 6.x inject=...:signal=KILL delivers the kill on entry of the selected system call; power-loss durability, partial write() calls and disk-full are not covered; "
+                                         "distinct recordings get distinct millisecond time stamps (hypothesis wf_calls; the harness waits 2 ms between recordings)",
+                                         "go-cptv's reader is the decoder: a file 'decodes' if every frame reads without error up to EOF and the count equals the header's NumFrames"]},
 }
